@@ -19,9 +19,13 @@ NA = {
  "C19": "'order-insensitive' refers to the order written in the file (an input permutation); Go's iteration order of the matrix maps cannot change a verdict, and C02 explores it regardless (DESIGN.md section 5)",
 }
 
-PENDING = {p: "claimed in DESIGN.md; its check is still under construction in this commit, so nothing is claimed yet" for p in ["C01","C10","C15","C20"]}
+PENDING = {p: "claimed in DESIGN.md; its check is still under construction in this commit, so nothing is claimed yet" for p in ["C01","C15","C20"]}
 
 CHECKS = {
+ "C10": dict(
+   level=("exploration", "Seeded search over multi-repository worlds x argument subsets/orders x goroutine schedules of LintFiles x NumCPU, deciding: per-file result == the file linted alone (executable reference), attribution == nearest containing repository (reference model) for every argument order, each callee defect exactly once per run, linearizability of the two caches' concurrent histories (porcupine) for defective callees, immutability of built-in tables and shared configs (reflection fingerprints), absence of data races (the same worlds on the -race build under an invisible baton), no deadlock. Schedules are sampled: exploration.", "DESIGN.md section 4 (C10)"),
+   note="Trusts: simulated sync/x-sync/os models; reference models in harness/prop_c10*.go and gen_world.go; race lane can under-report (sync.Pool-mediated edges, TSan history window) but reports are only raised for stacks with actionlint frames on both sides and re-confirmed in fresh processes. Known finding: callee defect consumed by a paths-ignored file (known_findings.json).",
+   technique="deterministic simulation: seeded scheduler over simulated sync primitives + virtual disk, solo-run reference, porcupine on recorded cache histories, race detector under TSan-invisible baton, fault injection (read errors)"),
  "C02": dict(
    level=("exploration", "Seeded search over generated multi-repository worlds x map-iteration orders at every instrumented range-over-map site x goroutine schedules of LintFiles x NumCPU x repeated execution in one process, with a purely differential oracle: stdout bytes, exit status and every field of every returned error must equal the canonical run's. Needs no model of actionlint, so it cannot false-alarm on a deterministic program; exploration is the level because schedules and orders are sampled.", "DESIGN.md section 4 (C02)"),
    note="Trusts: the simulated sync/x-sync/os models and map-order instrumentation (69 of 70 sites; the pointer-keyed one keeps native order); harness determinism is self-tested on every run (same seeds in separate processes under GOMAXPROCS 1/4/16). Known finding: which call site reports a local callee's own defect (known_findings.json).",
